@@ -393,3 +393,86 @@ Proof.
     contradiction. }
   split; [exact Hio|]. unfold aff2axcodes. rewrite Hio. apply code_axcodes, Hc.
 Qed.
+
+(* ---------------------------------------------------------------------------- C17_errors *)
+
+Lemma check_voxel_order_cases code :
+  check_voxel_order code = Err EValue \/ (check_voxel_order code = Ok (upper code) /\ valid_codeb code = true).
+Proof. rewrite check_voxel_order_spec. destruct (valid_codeb code); auto. Qed.
+
+Theorem reorder_invalid_code a A code : ~ valid_code code -> reorder a A code = Err EValue.
+Proof. intros H. unfold reorder. rewrite (check_voxel_order_invalid code H). reflexivity. Qed.
+
+Theorem reorder_low_dim a A code : length (ashape a) < 3 -> reorder a A code = Err EValue.
+Proof.
+  intros H. unfold reorder. destruct (check_voxel_order_cases code) as [->|[-> _]]; [reflexivity|].
+  apply Nat.ltb_lt in H. rewrite H. reflexivity.
+Qed.
+
+Theorem reorder_bad_affine a A code : is_shape 4 4 A = false -> reorder a A code = Err EValue.
+Proof.
+  intros H. unfold reorder. destruct (check_voxel_order_cases code) as [->|[-> _]]; [reflexivity|].
+  destruct (length (ashape a) <? 3); [reflexivity|]. rewrite H. reflexivity.
+Qed.
+
+Lemma ornt_transform_err s e x : ornt_transform s e = Err x -> x = EValue.
+Proof.
+  unfold ornt_transform. destruct (negb _); [intros [= <-]; reflexivity|].
+  generalize 0 at 1. generalize (map (fun _ : ornt_row => @None (nat * Z)) s).
+  induction e as [|[[eo ef]|] e IH]; intros r i; cbn [ornt_transform_loop].
+  - discriminate.
+  - destruct (find_start eo s 0) as [[si sf]|]; [apply IH | intros [= <-]; reflexivity].
+  - intros [= <-]; reflexivity.
+Qed.
+
+Lemma after_transform a A code o :
+  valid_codeb code = true -> 3 <= length (ashape a) ->
+  ornt_transform (io_orientation A) (axcodes2ornt (upper code)) = Ok o ->
+  exists a' T, apply_orientation a o = Ok a' /\ inv_ornt_aff o (ashape a) = Ok T.
+Proof.
+  intros Hv Hnd Ht.
+  pose proof (transform_good_in (io_orientation A) (upper code) (io_orientation_ok A) (valid_in_codes48 _ Hv)) as G.
+  unfold transform_good in G. rewrite Ht in G.
+  apply andb_prop in G as [G _]. apply andb_prop in G as [Hs _].
+  destruct (is_sperm_inv o Hs) as (p0 & f0 & p1 & f1 & p2 & f2 & -> & Hp & F0 & F1 & F2).
+  destruct (ashape a) as [|n0 [|n1 [|n2 rest]]] eqn:Hsh; cbn [length] in Hnd; try lia.
+  rewrite inv_ornt_aff_lit by exact Hp.
+  unfold apply_orientation. rewrite Hsh. cbn [length Nat.ltb Nat.leb ornt_rows]. eauto.
+Qed.
+
+(** the only exception reorder_voxels raises is ValueError *)
+Theorem reorder_only_value_error a A code x : reorder a A code = Err x -> x = EValue.
+Proof.
+  unfold reorder. destruct (check_voxel_order_cases code) as [->|[-> Hv]]; [intros [= <-]; reflexivity|].
+  destruct (length (ashape a) <? 3) eqn:El; [intros [= <-]; reflexivity|]. apply Nat.ltb_ge in El.
+  destruct (negb (is_shape 4 4 A)); [intros [= <-]; reflexivity|].
+  destruct (ornt_transform _ _) as [o|y] eqn:Et; [|intros [= <-]; eapply ornt_transform_err, Et].
+  destruct (after_transform a A code o Hv El Et) as (a' & T & -> & ->). discriminate.
+Qed.
+
+(** valid codes are not rejected: with a >= 3-D array and a 4x4 affine whose orientation is complete
+    (in particular an unambiguous one) the call succeeds *)
+Theorem reorder_succeeds a A code :
+  valid_code code -> 3 <= length (ashape a) -> is_shape 4 4 A = true ->
+  is_sperm (io_orientation A) = true ->
+  exists r, reorder a A code = Ok r.
+Proof.
+  intros Hv Hnd HA Hs. apply valid_code_iff in Hv.
+  unfold reorder. rewrite check_voxel_order_spec, Hv.
+  apply Nat.ltb_ge in Hnd. rewrite Hnd, HA. cbn [negb]. apply Nat.ltb_ge in Hnd.
+  destruct (transform_total_in _ _ Hs (valid_in_codes48 _ Hv)) as [o Ht]. rewrite Ht.
+  destruct (after_transform a A code o Hv Hnd Ht) as (a' & T & -> & ->). eauto.
+Qed.
+
+Lemma unambiguous_sperm A : unambiguous A -> is_sperm (io_orientation A) = true.
+Proof.
+  intros (d0 & d1 & d2 & D0 & D1 & D2 & N01 & N12 & N02).
+  rewrite (io_orientation_unamb A d0 d1 d2) by assumption.
+  destruct D0 as [L0 _], D1 as [L1 _], D2 as [L2 _].
+  unfold is_sperm, is_perm3, sgn.
+  repeat match goal with |- context [Qle_bool ?a ?b] => destruct (Qle_bool a b) end;
+    cbn [is_flip Z.eqb Pos.eqb orb andb];
+    rewrite !andb_true_r;
+    repeat (apply andb_true_intro; split);
+    try (apply Nat.ltb_lt; assumption); apply negb_true_iff, Nat.eqb_neq; assumption.
+Qed.
